@@ -9,6 +9,9 @@ NOTE = ('Bounded model checking: integer widths exact, collection sizes/unrollin
 CLAIMS = {
  'C01': 'Every pair entry point (swap native/cw20, provide first/next, withdraw, collect, update fees) is executed symbolically from an arbitrary invariant-satisfying state for each native/cw20 configuration; z3 shows solvency, pro-rata mint/refund, LP-value monotonicity and the minimum-liquidity lock for all 128-bit amounts and all valid fee triples. One inductive step covers histories of any length.',
  'C02': 'helpers::compute_swap (constant-product arm) with fully symbolic reserves, offer and fee triple (validated by the real PoolFee::is_valid): gross-amount identity, exact fee split, proceeds < ask reserve, totality outside the listed known defect, and (thorough) the two-swap round trip.',
+ 'C05': 'Every vault entry point that moves value (deposit first/next, withdraw, collect, fee change) and the flash-loan bracket (after_trade from an arbitrary state) is executed symbolically for native and cw20 vaults; z3 shows pro-rata mint/payout, share-price monotonicity, the minimum-liquidity lock and deposit-then-withdraw <= deposit for all 128-bit values and all valid fee triples.',
+ 'C06': 'flash_loan message order/content, callback authorisation with a symbolic sender, after_trade from an ARBITRARY post-callback state (the adversary is any balance/ledger), exact fee split, payback query vs after_trade (exact suffices, one less fails), deposit guard during loans, a depth-2 nested-loan history with arbitrary repayments, and the vault router next_loan / complete_loan obligations.',
+ 'C15': 'assert_max_spread (spread and belief-price clauses, default and cap) and the pair slippage-tolerance test with fully symbolic arguments, the arguments swap passes to the slippage check, and the router: AssertMinimumReceive appended last with the receiver balance, and Ok <=> balance delta >= minimum.',
  'C20': 'Every path of the real epoch-manager create_epoch entry point from an arbitrary stored epoch/config with symbolic block time, 0..3 hooks: accepted calls are never early and advance id/start by exactly one step; permissionless.',
 }
 REASONS = {}
